@@ -338,3 +338,29 @@ M('C19', 'custom-kernel-even-ok', 'convolution.py', "    if (rows % 2 == 0 or co
 T('C19', 'euclid-pow', 'proximity.py', "    return np.sqrt(x * x + y * y)", "    return (x ** 2 + y ** 2) ** 0.5")
 T('C19', 'haversine-dlon-reversed', 'proximity.py', "    dlon = lon2 - lon1", "    dlon = lon1 - lon2")
 T('C19', 'ellipse-le-rearranged', 'convolution.py', "ellipse = (x * half_h) ** 2 + (y * half_w) ** 2 <= (half_w * half_h) ** 2", "ellipse = (half_w * half_h) ** 2 >= (y * half_w) ** 2 + (half_h * x) ** 2")
+
+# ------------------------------------------------------------------------------------------------ C09
+M('C09', 'apply-transposed-idx', 'focal.py', "                        kyidx, kxidx = ky - (y - hrows), kx - (x - hcols)", "                        kxidx, kyidx = ky - (y - hrows), kx - (x - hcols)", 'F1')
+M('C09', 'apply-halves-swapped', 'focal.py', "    hrows, hcols = int(krows / 2), int(kcols / 2)", "    hrows, hcols = int(kcols / 2), int(krows / 2)", 'F1')
+M('C09', 'apply-fill-hoisted', 'focal.py', "    for y in prange(rows):\n        for x in prange(cols):\n            # kernel values are all nans at the beginning of each step\n            kernel_values.fill(np.nan)\n", "    kernel_values.fill(np.nan)\n    for y in prange(rows):\n        for x in prange(cols):\n", 'F1')
+M('C09', 'apply-bound-wrong-extent', 'focal.py', "                    if ky >= 0 and ky < rows and kx >= 0 and kx < cols:", "                    if ky >= 0 and ky < cols and kx >= 0 and kx < rows:", 'F1')
+M('C09', 'apply-kernel-gate-removed', 'focal.py', "                        if kernel[kyidx, kxidx] == 1:\n                            kernel_values[kyidx, kxidx] = data[ky, kx]", "                        if True:\n                            kernel_values[kyidx, kxidx] = data[ky, kx]", 'F1')
+M('C09', 'apply-mirrored', 'focal.py', "                            kernel_values[kyidx, kxidx] = data[ky, kx]", "                            kernel_values[kyidx, kxidx] = data[2 * y - ky, kx]")
+M('C09', 'mean-clamp-wrong-axis', 'focal.py', "                right = min(x+2, cols)", "                right = min(x+2, rows)", 'F2')
+M('C09', 'mean-plain-mean', 'focal.py', "                out[y, x] = np.nanmean(kernel_data)", "                out[y, x] = np.mean(kernel_data)", 'F2')
+M('C09', 'mean-equal-plain', 'focal.py', "    if x == y or (np.isnan(x) and np.isnan(y)):\n        return True", "    if x == y:\n        return True", 'F2')
+M('C09', 'mean-passes-plus-one', 'focal.py', "    for i in range(passes):\n        out = _mean(out, tuple(excludes))", "    for i in range(passes + 1):\n        out = _mean(out, tuple(excludes))", 'F2')
+M('C09', 'mean-excluded-zeroed', 'focal.py', "            else:\n                out[y, x] = data[y, x]\n    return out", "            else:\n                out[y, x] = 0\n    return out", 'F2')
+M('C09', 'conv-kernel-flipped', 'convolution.py', "                iii = wkx + ii - i\n", "                iii = wkx - ii + i\n", 'F3')
+M('C09', 'conv-kernel-transposed', 'convolution.py', "                    num += kernel[iii, jjj] * data[ii, jj]", "                    num += kernel[jjj, iii] * data[ii, jj]", 'F3')
+M('C09', 'conv-loop-from-zero', 'convolution.py', "    for i in prange(wkx, nx-wkx):", "    for i in prange(0, nx-wkx):", 'F3')
+M('C09', 'conv-zero-init', 'convolution.py', "    out = np.zeros(data.shape, dtype=np.float32)\n    out[:] = np.nan\n    for i in prange", "    out = np.zeros(data.shape, dtype=np.float32)\n    for i in prange", 'F3')
+M('C09', 'stats-std-is-var', 'focal.py', "        'std': _calc_std,", "        'std': _calc_var,", 'F4')
+M('C09', 'stats-min-not-nan', 'focal.py', "def _calc_min(array):\n    return np.nanmin(array)", "def _calc_min(array):\n    return np.min(array)", 'F4')
+M('C09', 'hotspots-threshold', 'focal.py', "            elif abs(zscore) > 1.96 and p_value < 0.05:", "            elif abs(zscore) > 1.69 and p_value < 0.05:", 'F5')
+M('C09', 'hotspots-unsigned', 'focal.py', "            elif zscore < 0:\n                hot_cold = -1", "            elif zscore < 0:\n                hot_cold = 1", 'F5')
+M('C09', 'hotspots-local-std', 'focal.py', "    global_std = np.nanstd(data)", "    global_std = np.nanstd(mean_array)", 'F5')
+M('C09', 'apply-no-kernel-validation', 'focal.py', "    # Validate the kernel\n    kernel = custom_kernel(kernel)\n\n    # apply kernel to raster values", "    # apply kernel to raster values", 'F6')
+T('C09', 'apply-half-floordiv', 'focal.py', "    hrows, hcols = int(krows / 2), int(kcols / 2)", "    hrows, hcols = krows // 2, kcols // 2")
+T('C09', 'apply-idx-rearranged', 'focal.py', "                        kyidx, kxidx = ky - (y - hrows), kx - (x - hcols)", "                        kyidx = ky - y + hrows\n                        kxidx = hcols + kx - x")
+T('C09', 'conv-accumulate-reordered', 'convolution.py', "                    num += kernel[iii, jjj] * data[ii, jj]", "                    num += data[ii, jj] * kernel[iii, jjj]")
